@@ -103,6 +103,11 @@ func (c DeleteCmd) deleteRank(tx sqlx.Tx, now int64) (int, error) {
 	if c.byRank.start < 0 || c.byRank.stop < 0 {
 		return 0, nil
 	}
+	if c.byRank.stop < c.byRank.start {
+		// an inverted range selects nothing
+		// (a negative LIMIT would mean "no limit")
+		return 0, nil
+	}
 
 	// Delete elements by rank.
 	args := []any{
